@@ -674,11 +674,12 @@ static void deduce_check(int f, std::string const& id, Big const& v, bool from_c
     vf::outcome(std::string("ok_") + factory_name[f] + (want_exp ? "_exponent" : ""));
 }
 
-#if !defined(__clang__)
-#define C15_HAVE_ALIAS_CTAD 1
-#else
-#define C15_HAVE_ALIAS_CTAD 0  // Clang 14: no class template argument deduction through alias templates
-#endif
+// Class template argument deduction for elastic_integer{...} / scaled_integer{...}: the tree declares no
+// deduction guides for these alias templates (only cnl::fraction has CTAD, covered by C16/C17). g++ accepts
+// the syntax through C++20 alias CTAD but merely picks the alias's default arguments; Clang 14 rejects it.
+// It is not a deduction facility the library provides or documents, so it is not judged (an earlier version
+// of this check did, and raised a false alarm: see DESIGN.md sec. 15).
+#define C15_HAVE_ALIAS_CTAD 0
 
 #if C15_MODE == 3
 
